@@ -269,8 +269,8 @@ theorem commit_result (u : Nat) (fs : FS) (tmp dst : Path) (hne : tmp ≠ dst) (
   have htmp : run u fs ([Act.createExcl tmp mode] ++ ws ++ [Act.close tmp]) tmp = some (newFile mode u pieces) := by
     rw [hws', before_rename_tmp, chunks_flatten]; rfl
   refine ⟨?_, ?_, ?_⟩
-  · rw [hsplit, run_rename u fs _ tmp dst _ htmp, set_other _ _ _ _ hd, set_same]; rfl
-  · rw [hsplit, run_rename u fs _ tmp dst _ htmp, set_same]
+  · rw [hsplit, run_rename u fs _ tmp dst _ htmp, set_same]; rfl
+  · rw [hsplit, run_rename u fs _ tmp dst _ htmp, set_other _ _ _ _ (fun e => hd e.symm), set_same]
   · intro p hp hq
     apply run_untouched
     intro a ha
